@@ -11,6 +11,9 @@ import (
 	"sync"
 )
 
+// MaxDistinct caps the per-process set of distinct non-trivial case hashes.
+const MaxDistinct = 100000
+
 // Collector accumulates statistics for one check in one process.
 type Collector struct {
 	mu          sync.Mutex
@@ -54,7 +57,13 @@ func (c *Collector) Nontrivial(key string) {
 	h := fnv.New64a()
 	h.Write([]byte(key))
 	c.mu.Lock()
-	c.Distinct[h.Sum64()] = true
+	// the set is capped: beyond the cap further cases are only counted, so the reported
+	// number of distinct non-trivial cases is a lower bound
+	if len(c.Distinct) < MaxDistinct {
+		c.Distinct[h.Sum64()] = true
+	} else if !c.Distinct[h.Sum64()] {
+		c.Extra["nontrivial_beyond_distinct_cap"]++
+	}
 	c.mu.Unlock()
 }
 
